@@ -1468,9 +1468,9 @@ func (g *nmGen) nextC07(step int, tr *nmTrack) nmOp {
 	return g.candOp(step, byte(step))
 }
 
-// planC08 builds a history of the quantifier's scope: resize to `first`,
-// `ticks1` consecutive epochs with distinct candidate sets, resize to
-// `second`, `ticks2` epochs, optionally a third resize and more epochs.
+// planC08 builds a history of the quantifier's scope: ticks[0] consecutive
+// epochs with distinct candidate sets, resize to counts[0], ticks[1] epochs,
+// resize to counts[1], ticks[2] epochs, optionally a third resize and more.
 func (g *nmGen) planC08(counts []int64, ticks []int, lightWarmup bool) {
 	n := g.n
 	epoch := int64(0)
@@ -1481,17 +1481,18 @@ func (g *nmGen) planC08(counts []int64, ticks []int, lightWarmup bool) {
 		i := int(epoch) % nn
 		tag := byte(epoch)
 		// make this epoch's candidate sets distinguishable in both formats
-		g.plan = append(g.plan, nmOp{Kind: "addPeerIR", Info: n.info(i, tag, 2), Signers: al})
+		// warm-up ticks: the candidate changes share the block of the tick (several transactions per block)
+		g.plan = append(g.plan, nmOp{Kind: "addPeerIR", Info: n.info(i, tag, 2), Signers: al, Join: light})
 		g.plan = append(g.plan, nmOp{Kind: "addNode", Addrs: []string{fmt.Sprintf("a%d", epoch)}, Attrs: [][2]string{{"e", fmt.Sprint(epoch)}},
-			Key: n.nodes[i].pub, State: 1, Signers: []int{-1, i}})
+			Key: n.nodes[i].pub, State: 1, Signers: []int{-1, i}, Join: light})
 		if g.r.Intn(4) == 0 {
 			j := g.r.Intn(nn)
 			if j != i {
-				g.plan = append(g.plan, nmOp{Kind: "deleteNode", Key: n.nodes[j].pub, Signers: al})
+				g.plan = append(g.plan, nmOp{Kind: "deleteNode", Key: n.nodes[j].pub, Signers: al, Join: light})
 			}
 		}
 		if g.r.Intn(5) == 0 {
-			g.plan = append(g.plan, nmOp{Kind: "updateStateIR", State: 3, Key: n.nodes[i].pub, Signers: al})
+			g.plan = append(g.plan, nmOp{Kind: "updateStateIR", State: 3, Key: n.nodes[i].pub, Signers: al, Join: light})
 		}
 		if g.r.Intn(12) == 0 {
 			g.plan = append(g.plan, nmOp{Kind: "newEpoch", Epoch: epoch, Signers: []int{i}}) // not the Alphabet: inert
@@ -1499,13 +1500,13 @@ func (g *nmGen) planC08(counts []int64, ticks []int, lightWarmup bool) {
 		g.plan = append(g.plan, nmOp{Kind: "newEpoch", Epoch: epoch, Signers: al, Light: light})
 	}
 	for k := 0; k < len(ticks); k++ {
-		if k < len(counts) {
-			g.plan = append(g.plan, nmOp{Kind: "updateSnapshotCount", Count: counts[k], Signers: al})
-		}
 		for j := 0; j < ticks[k]; j++ {
 			// warm-up ticks long before the next resize are observed through the short projection
-			light = lightWarmup && k+1 < len(counts) && j < ticks[k]-2
+			light = lightWarmup && k < len(counts) && j < ticks[k]-2
 			tick()
+		}
+		if k < len(counts) {
+			g.plan = append(g.plan, nmOp{Kind: "updateSnapshotCount", Count: counts[k], Signers: al})
 		}
 	}
 }
